@@ -9,6 +9,7 @@ package main
 // counts as a counterexample only for the variant with all hypotheses.
 
 import (
+	"strconv"
 	"sort"
 	"bytes"
 	"runtime"
@@ -313,6 +314,40 @@ func (o *Obligation) variants() []scriptVariant {
 		if share {
 			rel = append(rel, q)
 			nrel++
+		}
+	}
+	// "recent": the quantifier-free hypotheses and only the most recently assumed quantified ones
+	// (the last intermediate assertions, the contract of the call just made): for a step that
+	// follows from what was established just before it, everything older is noise
+	{
+		var recent []*Term
+		nq := 0
+		for i := len(hs) - 1; i >= 0; i-- {
+			if hasQuant(hs[i]) {
+				nq++
+			}
+		}
+		keep := 10
+		if v, err := strconv.Atoi(os.Getenv("HVC_RECENT")); err == nil && v > 0 {
+			keep = v
+		}
+		seenQ := 0
+		for i := len(hs) - 1; i >= 0; i-- {
+			if !hasQuant(hs[i]) {
+				recent = append(recent, hs[i])
+				continue
+			}
+			if seenQ < keep {
+				recent = append(recent, hs[i])
+				seenQ++
+			}
+		}
+		if nq > keep {
+			// restore chronological order
+			for l, r := 0, len(recent)-1; l < r; l, r = l+1, r-1 {
+				recent[l], recent[r] = recent[r], recent[l]
+			}
+			out = append(out, scriptVariant{"recent", mkScript(recent), false})
 		}
 	}
 	// "tight": only the quantified hypotheses that share a heap (array-sorted symbol) or an
